@@ -114,7 +114,8 @@ def gr_5(ctx, rep):
             if read is None:
                 continue
             n_reads += 1
-            ok = any(pol and 'contains_syntax' in norm(t) for t, pol in guards_of(read, f.node))
+            from ..facts import facts_at as _facts_at
+            ok = any(pol and 'contains_syntax' in t and '|' not in t for t, pol in _facts_at(read, f.node))
             rep.ob('GR-5', 'parso/parser.py', f.qual, 'reserved lookup %s under contains_syntax' % norm(read),
                    ok, 'reserved-string lookup is no longer guarded by contains_syntax')
     if not n_reads:
@@ -219,9 +220,24 @@ def par_8(ctx, rep):
                     found += 1
                     ok = True
                     detail = ''
+                    expr, evar = st.value, var
+                    # `children = self._helper(children)`: a private one-expression helper stands for its expression
+                    if isinstance(expr, ast.Call) and len(expr.args) == 1 and not expr.keywords and norm(expr.args[0]) == var:
+                        hname = expr.func.attr if isinstance(expr.func, ast.Attribute) else expr.func.id if isinstance(expr.func, ast.Name) else None
+                        h = None
+                        if hname and hname.startswith('_'):
+                            h = (f.cls.lookup(hname) if f.cls is not None and isinstance(expr.func, ast.Attribute) else None) \
+                                or f.mod.funcs.get(hname)
+                        if h is not None:
+                            body = [b for b in h.node.body if not (isinstance(b, ast.Expr) and isinstance(b.value, ast.Constant))]
+                            ps = [a.arg for a in h.node.args.args]
+                            if h.cls is not None and 'staticmethod' not in h.decorators() and ps:
+                                ps = ps[1:]
+                            if len(body) == 1 and isinstance(body[0], ast.Return) and body[0].value is not None and len(ps) == 1:
+                                expr, evar = body[0].value, ps[0]
                     for size in range(3, 9):
                         fo = Folder(ast.Module(body=[], type_ignores=[]))
-                        val = fo.ev(st.value, {var: list(range(size))})
+                        val = fo.ev(expr, {evar: list(range(size))})
                         want = [0] + list(range(2, size - 1))
                         if val is UNKNOWN or list(val) != want:
                             ok = False
